@@ -47,8 +47,9 @@ TEXT = {
             "derivation agree; the *_pos payload and the enumerate() wrapper follow one predicate on "
             "every path; the merger's input binder exists whenever its reader does; collections keyed "
             "by rank tuples are probed with tuples; a shape= argument names a rank's root only for ranks "
-            "that do not stem from a flattening; per-element rewrites accumulate. Does not decide "
-            "statement order per specification or data-built names.",
+            "that do not stem from a flattening; per-element rewrites accumulate; loop variables are "
+            "named through get_iter_ranks; the update is emitted only when every tensor was walked to "
+            "its values. Does not decide statement order per specification or data-built names.",
             "abstract interpretation of name templates + interprocedural guard sets"),
     "C07": ("Only the output tensor can be the target of populate (<<), getPayloadRef/"
             "iterRangeShapeRef and the in-place update: provenance of every write site; the footer "
@@ -87,7 +88,7 @@ TEXT = {
             "AST def-use / path rules over Collector time sites and the num_instances flow"),
     "C15": ("No store through a reference that may alias the five parsed input objects "
             "(interprocedural alias-depth analysis), no module/class-level mutable state written at "
-            "run time, no address/time-dependent values.",
+            "run time, no address/time-dependent values, component bindings copied per Einsum.",
             "interprocedural alias-depth (freshness) dataflow + global-state lints with fixtures"),
     "C16": ("Graphics emitters are observation-only and identically guarded; enumerate wrapper and "
             "_pos payload guarded by the same predicate; one activity per update; one coordinate "
